@@ -29,6 +29,9 @@ import re
 from rustlex import mask, match_close
 
 
+VACUITY = False
+
+
 class ContractError(Exception):
     pass
 
@@ -344,6 +347,12 @@ def _splice_one(c, rel, fns, src, msk, add, registry):
         if c.assumed:
             return  # body is not verified: no loop/anchor splicing
         loops = find_loops(msk, bo, bc)
+        if VACUITY:
+            add(bo + 1, '\nproof { assert(false); } /*#VAC %s#fn_start*/\n' % c.name)
+            for k_, (lkw_, lhe_, lcl_) in enumerate(loops):
+                bm_ = src.find('/*@body*/', lhe_, lcl_)
+                pos_ = bm_ + len('/*@body*/') if (bm_ >= 0 and src[lhe_ - 9:lhe_].strip().endswith('/*@hdr*/')) else lhe_ + 1
+                add(pos_, '\nproof { assert(false); } /*#VAC %s#loop%d*/\n' % (c.name, k_))
         for k, lp in c.loops.items():
             if k >= len(loops):
                 raise LostAnchor('%s: loop %d not found (fn has %d loops)' % (c.name, k, len(loops)))
